@@ -16,10 +16,10 @@ func checkC31(c *Ctx) (string, []string) {
 	A := "internal/accumulation."
 
 	c.Rule("C31.availability", "isValidTime(l, t) equals GP 9.7's I for every arity: [] ↦ false, [x] ↦ x ≤ t, [x,y] ↦ x ≤ t < y, [x,y,z] ↦ x ≤ t < y ∨ z ≤ t, longer ↦ false (each case's returned expression is tabulated over all x,y,z,t ∈ 0..4); HistoricalLookup returns the stored blob exactly when it exists and isValidTime holds for the entry keyed by (hash, |blob|) at the requested time", 8)
-	fd, p := c.FuncDecl(saPkg, "isValidTime")
-	if fd != nil {
-		lName, tName := fd.Type.Params.List[0].Names[0].Name, fd.Type.Params.List[1].Names[0].Name
-		spec := func(n int, l [3]int64, t int64) bool {
+	ivt := c.Fn(saPkg, "isValidTime")
+	hl := c.Fn(saPkg, "HistoricalLookup")
+	if ivt != nil && len(ivt.Params) == 2 {
+		spec := func(n int64, l [4]int64, t int64) bool {
 			switch n {
 			case 1:
 				return l[0] <= t
@@ -30,126 +30,113 @@ func checkC31(c *Ctx) (string, []string) {
 			}
 			return false
 		}
-		cases := map[int64]ast.Expr{}
-		var deflt ast.Expr
-		okSwitch := false
-		ast.Inspect(fd.Body, func(n ast.Node) bool {
-			sw, ok := n.(*ast.SwitchStmt)
-			if !ok {
-				return true
-			}
-			if call, ok := sw.Tag.(*ast.CallExpr); ok && types.ExprString(call) == "len("+lName+")" {
-				okSwitch = true
-			}
-			for _, st := range sw.Body.List {
-				cl := st.(*ast.CaseClause)
-				var ret ast.Expr
-				if len(cl.Body) == 1 {
-					if r, ok := cl.Body[0].(*ast.ReturnStmt); ok && len(r.Results) == 1 {
-						ret = r.Results[0]
-					}
-				}
-				if cl.List == nil {
-					deflt = ret
-					continue
-				}
-				for _, e := range cl.List {
-					if tv, ok := p.TypesInfo.Types[e]; ok && tv.Value != nil {
-						var k int64
-						fmt.Sscan(tv.Value.ExactString(), &k)
-						cases[k] = ret
-					}
-				}
-			}
-			return false
-		})
-		if !okSwitch {
-			c.Unknown("C31.availability", saPkg+".isValidTime · structure", fd.Pos(), "not a switch on len(l) with one returned expression per case")
+		dom := []int64{0, 1, 2, 3, 4}
+		if c.Tier == "thorough" {
+			dom = []int64{0, 1, 2, 3, 4, 5, 6, 1<<32 - 1}
 		}
-		for n := 0; n <= 4; n++ {
+		for n := int64(0); n <= 4; n++ {
 			key := fmt.Sprintf("%s.isValidTime · |l| = %d", saPkg, n)
-			e, has := cases[int64(n)]
-			if !has {
-				e = deflt
-			}
-			if e == nil {
-				c.Unknown("C31.availability", key, fd.Pos(), "no single returned expression for this arity")
-				continue
-			}
 			bad := ""
 			count := 0
-			dom := c.Deep(5, 8)
-			for x := int64(0); x < dom && bad == ""; x++ {
-				for y := int64(0); y < dom && bad == ""; y++ {
-					for z := int64(0); z < dom && bad == ""; z++ {
-						for t := int64(0); t < dom && bad == ""; t++ {
-							l := [3]int64{x, y, z}
-							got, ok := astEval(p.TypesInfo, e, func(a ast.Expr) (astVal, bool) {
-								if id, ok := a.(*ast.Ident); ok && id.Name == tName {
-									return astVal{i: t}, true
+			for _, x := range dom {
+				for _, y := range dom {
+					for _, z := range dom {
+						for _, t := range dom {
+							if bad != "" {
+								break
+							}
+							l := [4]int64{x, y, z, 0}
+							env := intEnv{params: map[ssa.Value]int64{ivt.Params[1]: t}, lens: map[ssa.Value]int64{ivt.Params[0]: n}, unknown: map[ssa.Value]bool{}, closed: true, cells: map[ssa.Value]int64{}}
+							env.opaque = func(v ssa.Value) (int64, bool) {
+								// l[k] for a constant k inside the list
+								var base, idx ssa.Value
+								switch u := v.(type) {
+								case *ssa.UnOp:
+									if ia, ok := u.X.(*ssa.IndexAddr); ok && u.Op == token.MUL {
+										base, idx = ia.X, ia.Index
+									}
+								case *ssa.Index:
+									base, idx = u.X, u.Index
 								}
-								if ix, ok := a.(*ast.IndexExpr); ok {
-									if id, ok := ix.X.(*ast.Ident); ok && id.Name == lName {
-										if tv, ok := p.TypesInfo.Types[ix.Index]; ok && tv.Value != nil {
-											var k int
-											fmt.Sscan(tv.Value.ExactString(), &k)
-											if k >= 0 && k < n && k < 3 {
-												return astVal{i: l[k]}, true
-											}
-											return astVal{}, false
-										}
+								if base == ssa.Value(ivt.Params[0]) {
+									if k, ok := constInt(idx); ok && k >= 0 && k < n && k < 4 {
+										return l[k], true
 									}
 								}
-								return astVal{}, false
-							})
+								return 0, false
+							}
+							rs, ok := runFunc(ivt, env)
 							count++
-							if !ok {
-								bad = "returned expression " + types.ExprString(e) + " is not a comparison formula over l[0..|l|-1] and t"
-							} else if got.b != spec(n, l, t) {
-								bad = fmt.Sprintf("for l=%v[:%d], t=%d the code yields %v, GP 9.7 yields %v (expression %s)", l, n, t, got.b, spec(n, l, t), types.ExprString(e))
+							if !ok || len(rs) != 1 {
+								bad = fmt.Sprintf("isValidTime is not a comparison formula over l[0..|l|-1] and t (evaluation stops at l=%v[:%d], t=%d; an element outside the list would be read, or something else consulted)", l[:3], n, t)
+							} else if (rs[0] != 0) != spec(n, l, t) {
+								bad = fmt.Sprintf("for l=%v[:%d], t=%d the code yields %v, GP 9.7 yields %v", l[:3], n, t, rs[0] != 0, spec(n, l, t))
 							}
 						}
 					}
 				}
 			}
 			if bad == "" {
-				c.OK("C31.availability", key, e.Pos(), "equals I(l,t) on all %d valuations", count)
+				c.OK("C31.availability", key, ivt.Pos(), "equals I(l,t) on all %d valuations", count)
 			} else {
-				c.Bad("C31.availability", key, e.Pos(), "%s", bad)
+				c.Bad("C31.availability", key, ivt.Pos(), "%s", bad)
 			}
 		}
 	}
-	hl := c.Fn(saPkg, "HistoricalLookup")
-	ivt := c.Fn(saPkg, "isValidTime")
 	if hl != nil && ivt != nil {
-		c.checkShapes("C31.availability", saPkg+".HistoricalLookup", hl, abbrMap(returnShapes(hl)), map[string][]string{"ret": {"nil", "p0.PreimageLookup[p2]#0"}})
-		c.checkCondSet("C31.availability", saPkg+".HistoricalLookup", hl, []string{saPkg + ".isValidTime(p0.LookupDict[*alloc:types.LookupMetaMapkey], p1)", "p0.PreimageLookup[p2]#1"})
-		lk := map[string][]string{}
+		o := robustOpts
+		// the availability test is made on the entry keyed by (hash, |stored blob|) at the requested time
+		var vcall *ssa.Call
 		allInstrs(hl, func(in ssa.Instruction) {
-			if st, ok := in.(*ssa.Store); ok {
-				a := abbr(exprStr(st.Addr, shapeOpts))
-				if strings.HasPrefix(a, "&alloc:types.LookupMetaMapkey.") {
-					f := strings.TrimPrefix(a, "&alloc:types.LookupMetaMapkey.")
-					lk[f] = append(lk[f], abbr(exprStr(st.Val, shapeOpts)))
-				}
+			if call, ok := in.(*ssa.Call); ok && call.Call.StaticCallee() == ivt {
+				vcall = call
 			}
 		})
-		c.checkShapes("C31.availability", saPkg+".HistoricalLookup · key", hl, lk, map[string][]string{"Hash": {"p2"}, "Length": {"u32(len(p0.PreimageLookup[p2]))"}})
-		// blob returned only behind exists ∧ valid
-		ex := condEdges(hl, func(v ssa.Value) (bool, bool) { return exprStr(v, shapeOpts) == "p0.PreimageLookup[p2]#1", true })
-		vt := condEdges(hl, func(v ssa.Value) (bool, bool) {
-			return strings.HasPrefix(exprStr(v, shapeOpts), saPkg+".isValidTime("), true
-		})
-		ok := len(ex) == 1 && len(vt) == 1
-		allInstrs(hl, func(in ssa.Instruction) {
-			if r, isR := in.(*ssa.Return); isR {
-				isBlob := exprStr(r.Results[0], shapeOpts) != "nil"
-				if isBlob != (guardedBy(hl, r, ex) && guardedBy(hl, r, vt)) {
-					ok = false
+		if vcall == nil {
+			c.Bad("C31.availability", saPkg+".HistoricalLookup · key", hl.Pos(), "HistoricalLookup does not consult isValidTime")
+		} else {
+			lk := map[string][]string{}
+			allInstrs(hl, func(in ssa.Instruction) {
+				if st, ok := in.(*ssa.Store); ok {
+					a := abbr(exprStr(st.Addr, shapeOpts))
+					if strings.HasPrefix(a, "&alloc:types.LookupMetaMapkey.") {
+						f := strings.TrimPrefix(a, "&alloc:types.LookupMetaMapkey.")
+						v := abbr(exprStr(st.Val, o))
+						v = strings.ReplaceAll(v, "p0.PreimageLookup[p2]#0", "p0.PreimageLookup[p2]")
+						lk[f] = append(lk[f], v)
+					}
 				}
+			})
+			c.checkShapes("C31.availability", saPkg+".HistoricalLookup · key", hl, lk, map[string][]string{"Hash": {"p2"}, "Length": {"u32(len(p0.PreimageLookup[p2]))"}})
+			arg := abbr(exprStr(vcall.Call.Args[0], o))
+			c.Check(arg == "p0.LookupDict[*alloc:types.LookupMetaMapkey]" && abbr(exprStr(vcall.Call.Args[1], o)) == "p1", "C31.availability", saPkg+".HistoricalLookup · entry", vcall.Pos(), "isValidTime(a_l[(h, |a_p[h]|)], t)", "the availability test is made on "+arg+" at "+abbr(exprStr(vcall.Call.Args[1], o)))
+		}
+		// blob iff present ∧ available (truth table)
+		bad := ""
+		for m := 0; m < 4 && bad == ""; m++ {
+			present, valid := int64(m&1), int64(m>>1)
+			r, ok := runWithAtoms(hl, o, func(s string) (int64, bool) {
+				switch {
+				case s == "p0.PreimageLookup[p2]#1":
+					return present, true
+				case strings.HasPrefix(s, saPkg+".isValidTime("):
+					return valid, true
+				}
+				return 0, false
+			}, nil)
+			if !ok || len(r.Results) != 1 {
+				bad = "the result depends on something other than (the preimage is stored, the entry is available at t)"
+				break
 			}
-		})
-		c.Check(ok, "C31.availability", saPkg+".HistoricalLookup · arms", hl.Pos(), "blob iff present ∧ available, nil otherwise", "the blob is returned without both the presence test and the availability test (or withheld although both hold)")
+			res := abbr(exprStr(r.Results[0], o))
+			isBlob := res == "p0.PreimageLookup[p2]#0" || res == "p0.PreimageLookup[p2]"
+			if !isBlob && res != "nil" {
+				bad = "HistoricalLookup can return " + res
+			} else if isBlob != (present == 1 && valid == 1) {
+				bad = fmt.Sprintf("with stored=%d and available=%d the blob is returned=%v", present, valid, isBlob)
+			}
+		}
+		c.Check(bad == "", "C31.availability", saPkg+".HistoricalLookup · arms", hl.Pos(), "blob iff present ∧ available, nil otherwise (4/4 rows)", "the blob is returned without both the presence test and the availability test (or withheld although both hold): "+bad)
 	}
 
 	c.Rule("C31.admission", "validateSortUnique rejects exactly when, for some adjacent pair, requester[i−1] > requester[i] or (equal and blob[i−1] ≥ blob[i]) (tabulated over all requester orderings and comparison outcomes); ValidatePreimageExtrinsics returns that error before looking at any entry, then rejects an entry unless ShouldIntegratePreimage(δ, requester, Blake2b(blob), |blob|) — which, for a known request, holds iff the preimage is not stored and the request's slot list is empty", 6)
